@@ -16,7 +16,7 @@ META = {
     "functions": ["Line.__init__", "Construction._initialize_positional_fields/_initialize_tags/_init_field_value", "Field._parse_gfa_field/_parse_gfa_tag",
                   "Writer.__str__/to_list/field_to_s", "Field._to_gfa_field/_to_gfa_tag", "FieldData.get", "every <datatype>.decode/encode"],
     "bounds": "28 (record, focus field) templates covering every positional datatype of every record type (H,#,S,L,C,P / S,E,F,G,O,U,custom) and every tag datatype (A,i,f,Z,J,H,B) x every grammatical string of length <= 1 (quick) / 2 (thorough) over a 20-character alphabet plus up to 5 multi-character literals per datatype (CIGARs, traces, lists, signed/zero-padded numbers, floats with exponents, arrays at range limits, nested JSON) in the focus field x vlevel 0..3: written line has no INVALID marker and the same number of fields, re-parsing gives equal positional values and equal (name, datatype, value) tags, writing is a fixed point, and for non-numeric datatypes the text is identical",
-    "timeout": {"quick": 400, "thorough": 1200}, "parts": {"quick": 16, "thorough": 16}},
+    "timeout": {"quick": 400, "thorough": 900}, "parts": {"quick": 16, "thorough": 16}},
   "h_document": {"kind": "G",
     "functions": ["Gfa.__init__/from_file/read_file/to_file/__str__", "Creators.add_line/process_line_queue", "Collections.lines", "Headers.headers", "Multiline._merge/_split",
                   "link References._process_not_unique"],
